@@ -72,3 +72,46 @@ def sym_ids(spec, out=None):
     elif isinstance(spec, (tuple, list)):
         for x in spec: sym_ids(x, out)
     return out
+
+
+def gen_terms(n, seed, depth=3, nnames=3):
+    """n pseudo-random well-formed term SHAPES of nesting depth <= depth (<= 3 children per compound): every constructor, images with
+    any valid placeholder index, intervals from a small set; atom names stay symbolic placeholders N(0..nnames-1).  Deterministic per seed."""
+    import random, zlib
+    rng = random.Random(zlib.crc32(('shapes-%s' % seed).encode()))
+    ATOMK = ['Word', 'VariableIndependent', 'VariableDependent', 'VariableQuery', 'Operator']
+    SETK = ['SetExtension', 'SetIntension', 'IntersectionExtension', 'IntersectionIntension', 'Conjunction', 'Disjunction', 'ConjunctionParallel']
+    BINK = ['DifferenceExtension', 'DifferenceIntension', 'Inheritance', 'Similarity', 'Implication', 'Equivalence', 'ImplicationPredictive',
+            'ImplicationConcurrent', 'ImplicationRetrospective', 'EquivalencePredictive', 'EquivalenceConcurrent']
+    def atom(allow_special=True):
+        r = rng.random()
+        if allow_special and r < 0.1: return ('Interval', rng.choice([0, 1, 7, 42]))
+        return (rng.choice(ATOMK), N(rng.randrange(nnames)))
+    def term(d):
+        if d == 0 or rng.random() < 0.2: return atom()
+        c = rng.choice(['set', 'set', 'vec', 'image', 'neg', 'bin', 'bin', 'bin'])
+        if c == 'set': return (rng.choice(SETK), [term(d - 1) for _ in range(rng.randrange(1, 4))])
+        if c == 'vec': return (rng.choice(['Product', 'ConjunctionSequential']), [term(d - 1) for _ in range(rng.randrange(1, 4))])
+        if c == 'image':
+            cs = [term(d - 1) for _ in range(rng.randrange(1, 4))]; return (rng.choice(['ImageExtension', 'ImageIntension']), rng.randrange(len(cs) + 1), cs)
+        if c == 'neg': return ('Negation', term(d - 1))
+        return (rng.choice(BINK), term(d - 1), term(d - 1))
+    out = []
+    for i in range(n):
+        t = term(depth)
+        while t[0] in ATOMK or t[0] == 'Interval': t = term(depth)
+        out.append(('gen/%d/%s' % (i, t[0]), t))
+    return out
+
+
+def gen_concrete(n, seed, depth=3):
+    """n generated values with concrete names (for corpora of printed samples): terms of gen_terms with names a/b/c, every third wrapped in a sentence or task"""
+    import random, zlib
+    rng = random.Random(zlib.crc32(('concrete-%s' % seed).encode()))
+    out = []
+    for i, (nm, t) in enumerate(gen_terms(n, 'c%s' % seed, depth)):
+        t = subst_names(t, {0: 'a', 1: 'bb', 2: 'c7'})
+        if i % 3 == 1: out.append(('Sentence', rng.choice(PUNCTS[:2]), t, rng.choice(STAMPS[:6]), rng.choice(TRUTHS[:3])))
+        elif i % 3 == 2: out.append(('Task', rng.choice(BUDGETS[:4]), rng.choice(PUNCTS), t, rng.choice(STAMPS[:6]), ()))
+        else: out.append(('Term', t))
+    return out
